@@ -32,7 +32,7 @@
    Observation per call: (kind, type name, repr) of the result or (exception
    type, args when the program raised it itself), the log of L(.) calls, the
    repr of the module global g after the call. *)
-EXTENDS Integers, Sequences, FiniteSets, TLC, Json, IOUtils
+EXTENDS Integers, Sequences, FiniteSets, TLC, Json, IOUtils, SequencesExt
 
 CONSTANTS MaxS,      \* max. number of generated statements of f after the definitions
           EDepth,    \* depth budget of statement-level expression holes
@@ -56,7 +56,6 @@ vars == <<prog, phase, ms, hist, ncall, pid>>
 
 Rem == IF "C01_REM" \in DOMAIN IOEnv THEN atoi(IOEnv.C01_REM) % Mod ELSE 0
 
-Range(s) == {s[k] : k \in 1..Len(s)}
 Has(s, x) == \E k \in 1..Len(s) : s[k] = x
 
 -----------------------------------------------------------------------------
@@ -631,7 +630,7 @@ SetItem(o, i, val, st) ==         \* -> st
                            ELSE [st EXCEPT !.heap[o.i].e = DictOf(<<VTuple(<<i, val>>)>>, 1, @, hp)]
           [] OTHER -> Raise(st, "TypeError", "setitem", "?")
 
-Contains(x, c, st) ==
+PyContains(x, c, st) ==
     LET hp == st.heap
         k == KindOf(c, hp)
     IN  CASE k = "tuple" -> R(st, VBool(\E j \in 1..Len(c.e) : PyEq(c.e[j], x, hp)))
@@ -666,7 +665,7 @@ BinOp(op, l, r, st) ==
                           ELSE TE
           [] op = "<" -> LET c == PyLt(l, r, hp) IN IF c = "E" THEN TE ELSE R(st, VBool(c = "T"))
           [] op = "==" -> R(st, VBool(PyEq(l, r, hp)))
-          [] op = "in" -> Contains(l, r, st)
+          [] op = "in" -> PyContains(l, r, st)
 
 (* -> [st, vs]: all remaining items of iterator it *)
 Drain(it, st, acc) ==
@@ -1012,13 +1011,23 @@ Obs(r) ==
 
 NoMs == [heap |-> <<>>, glob |-> EmptyD]
 
-(* Sample mode: one random derivation of the grammar, complete in the initial state *)
-RECURSIVE Derive(_)
-Derive(n) == IF n.t = "hole" THEN Derive(RandomElement(Prods(n)))
-             ELSE [n EXCEPT !.a = [k \in 1..Len(n.a) |-> Derive(n.a[k])]]
+(* Sample mode: one pseudo-random derivation of the grammar per behaviour.  The choices are a deterministic function of
+   (C01_SEED, pid): a small linear congruential generator is threaded through the derivation, the k-th production
+   is taken in TLC's (deterministic) enumeration order of the set *)
+Lcg(r) == (r * 75 + 74) % 65537
+Seed == IF "C01_SEED" \in DOMAIN IOEnv THEN atoi(IOEnv.C01_SEED) % 1000 ELSE 0
+R0(k) == Lcg(Lcg(Lcg((Seed * 7919 + k * 10473 + 1) % 65537)))
+PickFrom(S, r) == SetToSeq(S)[((r \div 7) % Cardinality(S)) + 1]
+
+RECURSIVE Derive(_, _), DeriveKids(_, _, _, _)
+DeriveKids(kids, k, acc, r) ==
+    IF k > Len(kids) THEN [a |-> acc, r |-> r]
+    ELSE LET d == Derive(kids[k], r) IN DeriveKids(kids, k + 1, Append(acc, d.n), d.r)
+Derive(n, r) == IF n.t = "hole" THEN Derive(PickFrom(Prods(n), r), Lcg(r))
+                ELSE LET ks == DeriveKids(n.a, 1, <<>>, r) IN [n |-> [n EXCEPT !.a = ks.a], r |-> ks.r]
 
 Init == /\ pid \in 1..NProg
-        /\ IF Sample THEN prog = Skeleton(RandomElement(Shapes), RandomElement(1..MaxS))
+        /\ IF Sample THEN prog = Skeleton(PickFrom(Shapes, R0(pid)), PickFrom(1..MaxS, Lcg(R0(pid))))
            ELSE prog \in {Skeleton(sh, ns) : sh \in Shapes, ns \in 1..MaxS}
         /\ phase = "gen"
         /\ ms = NoMs
@@ -1029,7 +1038,7 @@ Fill == /\ phase = "gen"
         /\ HasHole(prog)
         /\ LET path == HolePath(prog)
                ps == Prods(NodeAt(prog, path, 1))
-           IN  IF Sample THEN prog' = Derive(prog) ELSE \E sub \in ps : prog' = FillAt(prog, path, 1, sub)
+           IN  IF Sample THEN prog' = Derive(prog, Lcg(Lcg(R0(pid)))).n ELSE \E sub \in ps : prog' = FillAt(prog, path, 1, sub)
         /\ UNCHANGED <<phase, ms, hist, ncall, pid>>
 
 (* the module body: g = 0; def f(a, b): ... *)
